@@ -601,3 +601,6 @@ REWRITES = [
     Rewrite("regex-class-09", NP, "r'^\\d+\\Z'", "r'^[0-9]+\\Z'", desc="[0-9] instead of \\d"),
 ]
 MUTANTS.append(Mutant("empty-listing-keeps-old-nameplates", INP, "        self._all_nameplates = all_nameplates\n", "        if all_nameplates:\n            self._all_nameplates = all_nameplates\n", "C19.R7", "seed C19-17"))
+
+MUTANTS.append(Mutant("case-insensitive-completions", "src/wormhole/_input.py", "        return self._wordlist.get_completions(prefix)\n", "        return {prefix + c[len(prefix):] for c in self._wordlist.get_completions(prefix.lower())}\n", "C19.R8", "seed C19-18"))
+MUTANTS.append(Mutant("cached-completions", "src/wormhole/_input.py", "        return self._wordlist.get_completions(prefix)\n", "        key = prefix.split(\"-\")[-1]\n        if key not in self._cache:\n            self._cache[key] = self._wordlist.get_completions(prefix)\n        return self._cache[key]\n", "C19.R8", "seed C19-19"))
